@@ -191,6 +191,52 @@ def r2_machine(ctx):
         ctx.ob("R2", "initial", ok, "a new reader starts in Implicit(UTF-8)", config=cfg)
 
 
+def min_len_required(e):
+    """Smallest input length under which the switch event `e` (scrutinee over the input slice) takes the branch it took;
+    None if the test is not a recognised length test."""
+    t, v = e[2], e[3]
+    if t[0] == "discr":
+        c = strip_wrappers(t[1])
+        if c[0] == "call" and name_is(c[2], "get", "first", "last", "split_first", "split_last", "split_at_checked", "first_chunk"):
+            if v != 1:
+                return 0
+            if name_is(c[2], "first", "last", "split_first", "split_last"):
+                return 1
+            a = strip_wrappers(c[3][1]) if len(c[3]) > 1 else None
+            if a is not None and a[0] == "c" and isinstance(a[2], int):
+                return a[2] + 1 if name_is(c[2], "get") else a[2]
+            if a is not None and a[0] == "agg" and a[2] in ("RangeTo", "Range", "RangeToInclusive"):
+                end = strip_wrappers(a[3][-1])
+                if end[0] == "c" and isinstance(end[2], int):
+                    return end[2] + (1 if a[2] == "RangeToInclusive" else 0)
+        return None
+    if t[0] == "call" and name_is(t[2], "is_empty"):
+        return 1 if v == 0 else 0
+    if t[0] == "bin" and t[1] in ("Lt", "Le", "Gt", "Ge", "Eq", "Ne"):
+        l, r = strip_wrappers(t[2]), strip_wrappers(t[3])
+        op = t[1]
+        if r[0] in ("len",) or call_is(r, "len"):
+            l, r = r, l
+            op = {"Lt": "Gt", "Le": "Ge", "Gt": "Lt", "Ge": "Le"}.get(op, op)
+        if not (l[0] == "len" or call_is(l, "len")) or r[0] != "c" or not isinstance(r[2], int):
+            return None
+        k = r[2]
+        truth = v != 0
+        if op == "Lt":
+            return 0 if truth else k
+        if op == "Le":
+            return 0 if truth else k + 1
+        if op == "Gt":
+            return k + 1 if truth else 0
+        if op == "Ge":
+            return k if truth else 0
+        if op == "Eq":
+            return k if truth else 0
+        if op == "Ne":
+            return 0 if truth else k
+    return None
+
+
 def r3_bom(ctx):
     for cfg, F in ctx.facts.items():
         consts = {}
@@ -231,6 +277,16 @@ def r3_bom(ctx):
                                     sig[ci[-1][1]] = e[3]
                         if sig and sorted(sig) == list(range(len(sig))):
                             lit = bytes(sig[i] for i in range(len(sig)))
+                    if lit is not None and any(e[0] == "switch" and call_is(e[2], "starts_with") and e[3] != 0 for e in p):
+                        # a mark must be recognised in any input that starts with it: nothing before the successful test
+                        # may require more bytes than the mark has
+                        hit = [i for i, e in enumerate(p) if e[0] == "switch" and call_is(e[2], "starts_with") and e[3] != 0][0]
+                        for e in p[:hit]:
+                            if e[0] != "switch" or call_is(e[2], "starts_with") or not has_subterm(e[2], lambda s2: s2[0] == "arg" and s2[1] == 1):
+                                continue
+                            k = min_len_required(e)
+                            ctx.ob("R3", "detect_encoding:precondition[%s]" % lit.hex(), k is not None and k <= len(lit),
+                                   "the exit for the mark %s is reached only after `%s` took branch %s, which needs %s bytes: more than the mark has, so a short first piece keeps its mark" % (lit.hex(), sym.show(e[2], 3), e[3], k if k is not None else "an unknown number of"), config=cfg)
                     tup = r[3][0]
                     enc = str(tup[1][0])
                     name = "UTF_16BE" if "UTF_16BE" in enc else "UTF_16LE" if "UTF_16LE" in enc else "UTF_8" if "UTF_8" in enc else "?"
